@@ -50,7 +50,14 @@ pub fn enable(frequency: u64, start: u64, read_cost: u64, horizon_reads: u64) {
     HORIZON.store(horizon_reads, SeqCst);
     QUANTUM.store(1, SeqCst);
     HORIZON_HIT.store(false, SeqCst);
-    ENDS.lock().unwrap_or_else(|e| e.into_inner()).clear();
+    {
+        // Reads must not allocate (they happen inside timed sections whose allocations are
+        // tallied): reserve the per-thread tables up front.
+        let mut ends = ENDS.lock().unwrap_or_else(|e| e.into_inner());
+        ends.clear();
+        ends.reserve(256);
+        log::reserve_thread_ids(256);
+    }
     ENABLED.store(true, SeqCst);
 }
 
